@@ -54,7 +54,9 @@ FIELD_CHOICES = {
     'macro_alpha_chars': ['abcdefghijklmnopqrstuvwxyzABCDEFGHIJKLMNOPQRSTUVWXYZ', 'ab@'],
 }
 ALPHA = ['a', ' ', '\n', '{', '}', '[', ']', '<', '>', '(', ')', '$', '€', '\\', '!', '%', '#', '~']
-ATOMS = ALPHA + ['\\(', '\\)', '\\[', '\\]', '$$', '€€', '\\begin{a}', '\\end{a}', '\n\n', '\\a', '!a', '--', 'b']
+ATOMS = ALPHA + ['\\(', '\\)', '\\[', '\\]', '$$', '€€', '\\begin{a}', '\\end{a}', '\n\n', '\\a', '!a', '--', 'b',
+                 # every construct also spelled with the alternative escape / comment characters
+                 '!begin{a}', '!end{a}', '!begin', '!end{', '!(', '!)', '![', '!]', '!!', '#c\n', '%c\n', '!a b', '\\a b']
 
 
 def single_steps():
@@ -224,7 +226,7 @@ def strings_for(rng, L, thin, k):
             i += 1
             if i % thin == k % thin:
                 out.append(''.join(t))
-    for _ in range(20):
+    for _ in range(30):
         out.append(''.join(rng.choice(ATOMS) for _ in range(rng.randint(3, 10))))
     return out
 
